@@ -1101,6 +1101,8 @@ type responseWriter struct {
 	// trailers before writing the first bytes of data (like Connect
 	// and REST unary).
 	buf *bytes.Buffer
+	// the writer that fills buf; detached when buf is released
+	bufWriter *limitWriter
 }
 
 func (w *responseWriter) Header() http.Header {
@@ -1236,7 +1238,8 @@ func (w *responseWriter) WriteHeader(statusCode int) {
 		// We must await the end before we can write headers, which means we have to
 		// buffer the entire response.
 		w.buf = w.op.bufferPool.Get()
-		delegate = &limitWriter{buf: w.buf, limit: w.op.methodConf.maxMsgBufferBytes, rw: w}
+		w.bufWriter = &limitWriter{buf: w.buf, limit: w.op.methodConf.maxMsgBufferBytes, rw: w}
+		delegate = w.bufWriter
 	} else {
 		// We can go ahead and flush headers now.
 		w.flushHeaders()
@@ -1338,6 +1341,9 @@ func (w *responseWriter) flushHeaders() {
 		}
 		w.op.bufferPool.Put(w.buf)
 		w.buf = nil
+		// The buffer now belongs to the pool: a body writer that still
+		// holds pending data (flushed when it is closed) must not reach it.
+		w.bufWriter.buf = nil
 	}
 	if w.respMeta.end != nil {
 		// response is done
@@ -1893,6 +1899,9 @@ type limitWriter struct {
 }
 
 func (l *limitWriter) Write(data []byte) (n int, err error) {
+	if l.buf == nil {
+		return 0, errors.New("response buffer was already flushed")
+	}
 	length := l.buf.Len() + len(data)
 	if length > int(l.limit) {
 		err := bufferLimitError(int64(l.limit))
